@@ -168,6 +168,7 @@ class Interp:
         self.steps = 0
         self.ops_seen = set()
         self.forks = 0
+        self.pruned = 0
 
     # -- public -------------------------------------------------------------------------
     def run(self, fname, args):
@@ -230,8 +231,10 @@ class Interp:
             raise EncodingError("read of unwritten register r%d in %s: %s" % (r, f.name, ins.raw))
         return regs[r]
 
-    def _branch(self, cond):
-        """-> list of (extra condition or None, taken?) for a Bool term."""
+    def _branch(self, cond, conds=()):
+        """-> list of (extra condition or None, taken?) for a Bool term.  A condition that is
+        *syntactically* one of the literals already on the path (or its negation) does not fork:
+        that is propositional identity, no solver is involved."""
         c = _simp(cond)
         if z3.is_true(c):
             return [(None, True)]
@@ -239,8 +242,14 @@ class Interp:
             return [(None, False)]
         if self.concrete:
             raise EncodingError("condition did not fold in a concrete run: %s" % c)
+        base, pol = (c.arg(0), False) if z3.is_not(c) else (c, True)
+        for k in conds:
+            kb, kp = (k.arg(0), False) if z3.is_not(k) else (k, True)
+            if kb.eq(base):
+                self.pruned += 1
+                return [(None, kp == pol)]
         self.forks += 1
-        return [(c, True), (_simp(z3.Not(c)), False)]
+        return [(c, True), (z3.Not(base) if pol else base, False)]
 
     def _run(self, f, regs, idx, conds, trace, depth, fuel):
         while True:
@@ -334,7 +343,7 @@ class Interp:
                 dead = False
                 for tc, kind in traps:
                     nxt = None
-                    for extra, taken in self._branch(tc):
+                    for extra, taken in self._branch(tc, cur):
                         c2 = cur if extra is None else cur + [extra]
                         if taken:
                             yield from self._emit(c2, Outcome("trap", kind, "%s@%d" % (f.name, ins.off)), trace)
@@ -382,7 +391,7 @@ class Interp:
                 if not z3.is_bool(c):
                     raise EncodingError("JumpIf on a non-Bool in %s: %s" % (f.name, ins.raw))
                 want = op == "JumpIfTrue"
-                alts = self._branch(c)
+                alts = self._branch(c, conds)
                 if len(alts) == 1:
                     idx = f.at[a["t"]] if alts[0][1] == want else idx + 1
                     continue
@@ -446,7 +455,7 @@ class Interp:
                     raise Unsupported("variant %s of %s" % (a["variant"], en))
                 vi = vis[0]
                 alive = None
-                for extra, taken in self._branch(s.tag == vi):
+                for extra, taken in self._branch(s.tag == vi, conds):
                     c2 = conds if extra is None else conds + [extra]
                     if taken:
                         alive = c2
